@@ -222,10 +222,25 @@ func runUDPServer(st Stim) Trace {
 			tickMu.Lock()
 			fs := append([]func(time.Time) bool(nil), ticks...)
 			tickMu.Unlock()
+			n0, before := npings(), map[int32]bool{}
+			for _, m := range cc.VerifState().Mids {
+				before[m] = true
+			}
 			for _, f := range fs {
 				f(clock())
 			}
-			settlePings(npings) // a ping written by the tick reaches the peer's socket
+			// a ping written by the tick (a confirmable message with a new message ID in the connection's table) reaches the
+			// peer's socket: the peer goroutine must have seen it before the history goes on
+			newp := 0
+			for _, m := range cc.VerifState().Mids {
+				if !before[m] {
+					newp++
+				}
+			}
+			if newp > 0 {
+				hooks.WaitFor(2*time.Second, func() bool { return npings() >= n0+newp })
+			}
+			settlePings(npings)
 		}
 		closed := false
 		if closes.Load() > 0 {
@@ -397,8 +412,22 @@ func runTCPServer(st Stim) Trace {
 			tickMu.Lock()
 			fs := append([]func(time.Time) bool(nil), ticks...)
 			tickMu.Unlock()
+			n0, before := npings(), map[uint64]bool{}
+			for _, k := range ccA.VerifState().Tokens {
+				before[k] = true
+			}
 			for _, f := range fs {
 				f(clock())
+			}
+			// a ping written by the tick (a new token in the connection's table) must have been seen by the peer goroutine
+			newp := 0
+			for _, k := range ccA.VerifState().Tokens {
+				if !before[k] {
+					newp++
+				}
+			}
+			if newp > 0 {
+				hooks.WaitFor(2*time.Second, func() bool { return npings() >= n0+newp })
 			}
 			settlePings(npings)
 		}
